@@ -234,3 +234,60 @@ def describe(p):
     return [ck, "block=%d" % p["block"], "clients=%d" % len(p["clients"]), "subs=%d" % nsub,
             "cancels=%d" % min(len(p["cancels"]), 3), "shutdown=%d" % any(op[0] == "shutdown" for pr in p["clients"] for op in pr),
             "sync=%d" % any(e["sync"] for e in p["env"]), "tail=%d" % p["tail"]]
+
+
+def extra(stats, tier, seed):
+    """Directed: the caller's own (slow) done-callback on a throttled future.  When a delegate future finishes, its slot is free at once: the next
+    queued callable is handed over while the caller's callback on the finished future is still running, not after it."""
+    import drive
+    import detsched as det
+    from lib import Manual
+    from more_executors._impl.throttle import ThrottleExecutor
+    known_patterns = set(k["pattern"] for k in drive.load_known(PROP))
+
+    def viol(what, pattern, detail=None):
+        v = {"what": what, "pattern": pattern, "detail": detail, "case": {"params": {}, "chooser": "none", "cseed": 0, "origin": "directed"}}
+        if pattern in known_patterns:
+            stats.known.setdefault(pattern, v)
+        else:
+            stats.violations.append(v)
+    for trial in range(9 if tier == "quick" else 150):
+        count = 1 + trial % 2
+        res = {}
+
+        def main(count=count, res=res):
+            m = Manual()
+            with det.atomic():
+                ex = ThrottleExecutor(m, count)
+            futs = [ex.submit(lambda: 1) for _ in range(count + 1)]      # one more than fits: the last one waits in the queue
+            det.wait_until(lambda: len(m.fs) >= count)
+            slow = {"t0": None, "t1": None}
+
+            def cb(f):
+                slow["t0"] = det.S.now
+                det.sleep(5)                                               # a slow callback of the CALLER
+                slow["t1"] = det.S.now
+            futs[0].add_done_callback(cb)
+            t_done = det.S.now
+
+            def env():
+                f0 = m.fs[0][0]
+                f0.set_running_or_notify_cancel()
+                f0.set_result(1)
+            e = det.spawn("e0", env)
+            det.wait_until(lambda: len(m.fs) >= count + 1 or det.S.now > t_done + 100)
+            res["handed_at"] = det.S.now if len(m.fs) >= count + 1 else None
+            res["done_at"] = t_done
+            e.join()
+            res["cb"] = dict(slow)
+            ex.shutdown(False)
+        r = det.run(det.make_chooser(("random", "sticky", "pct")[trial % 3], seed * 17 + trial), main)
+        stats.add([[7, 7, count, trial % 3]], True, None, ["directed:slow-user-callback"])
+        if r.exc is not None or r.deadlock or r.hang:
+            viol("slow user callback scenario: %s" % (("deadlock %s" % (r.deadlock,)) if (r.deadlock or r.hang) else getattr(r, "tb", "")[-300:]),
+                 "throttle:deadlock", count)
+            continue
+        if res.get("handed_at") is None or res["handed_at"] > res["done_at"] + 1:
+            viol("count=%d: a delegate future finished at t=%s while a callable was queued, but the hand-over came at t=%s - only after the caller's "
+                 "5 s done-callback on the finished future had returned (%s)" % (count, res.get("done_at"), res.get("handed_at"), res.get("cb")),
+                 "throttle:idle-capacity", count)
